@@ -14,6 +14,7 @@ import TensoraVerif.Model.Taco
 import TensoraVerif.Model.Scoped
 import TensoraVerif.Lemmas.StoreCertGenerate
 import TensoraVerif.Lemmas.LowerableComplete
+import TensoraVerif.Lemmas.DimDeadGenerate
 open TV
 
 namespace Drv
@@ -363,6 +364,15 @@ def handle (cmd : String) (args : List Sexp) : Sexp :=
           Sexp.ofBool (Gen.properSums g), Sexp.ofBool (Gen.noSkip g),
           Sexp.ofBool (Gen.outLeavesOf (Gen.outTensor d fs) g)]
     | _, _ => Sexp.mk "bad-request" [.str "graph-args"]
+  | "DIMFREE", [a, fs, .str i] =>
+    -- C16: the hypotheses of `generateIr_deadDim` (dimFree, namesClear) on the graph the model chooses
+    match Alg.Wire.assignOf a, Graph.Wire.formatsOf fs with
+    | some a, some fs =>
+      let d := Alg.desugar a
+      match Graph.toIterationGraphs d fs with
+      | .ok (g :: _) => .list [Sexp.ofBool (Gen.dimFree i (Gen.outTensor d fs) g), Sexp.ofBool (Gen.namesClear i d fs)]
+      | _ => Sexp.mk "nograph" []
+    | _, _ => Sexp.mk "bad-request" [.str "dimfree-args"]
   | "EXHAUST", [e, .list refs] =>
     match Graph.Wire.idExprOf e, refs.mapM Sexp.toStr? with
     | some e, some refs => Graph.Wire.idExprToSexp (Graph.exhaustAll e refs)
